@@ -14,13 +14,42 @@ func init() {
 		ID: "C19",
 		Decides: "(R19.1) the center's list of temp databases and its removed list are written only with the center lock held exclusively (or in helpers called only with it held, or the constructor) and read under the lock or through the locked snapshot helpers; " +
 			"(R19.2) every leveldb key builder a reader uses is used by the block writer (and vice versa) — a reader cannot look where nothing is written; every key builder carries each of its parameters in full under its own prefix constant; (R19.3) every read of the center falls back to the same read of the permanent database with the caller's own argument — for the by-block-height suffrage proof the requested height, lowered to lowest-temp-minus-one only when it lies above it; " +
-			"(R19.4) a temp database is published to readers only after its own merge marker write succeeded and only for the height following the newest one; it leaves the list only after the permanent merge succeeded; (R19.5) Center.state consults a temp only if it is newer than the newest holder of the key found so far, replaces the remembered height only by the height of a newer temp that holds the key, and never resets it (closed or empty temps leave it unchanged).; (R19.j) jobs handed to a worker read only captured variables that the submitter does not assign again (no job works on a later batch/slot than the one it was created for)",
+			"(R19.4) a temp database is published to readers only after its own merge marker write succeeded and only for the height following the newest one; it leaves the list only after the permanent merge succeeded; (R19.5) Center.state consults a temp only if it is newer than the newest holder of the key found so far, replaces the remembered height only by the height of a newer temp that holds the key, and never resets it (closed or empty temps leave it unchanged).; (R19.j) jobs handed to a worker read only captured variables that the submitter does not assign again (no job works on a later batch/slot than the one it was created for); (R19.6) the temps answer a suffrage proof only for the asked suffrage height; (R19.7) the by-block-height read works on one snapshot of the temp list and (R19.8) a block writer's state cache is not shared across heights — R19.7 and R19.8 violated today, known findings",
 		NotDecided: "agreement with a model over all histories of writes/merges/removals (needs execution); monotonicity of concurrent reads during merges beyond the snapshot/lock discipline.",
 		Run:        runC19,
 	})
 }
 
 func runC19(c *Ctx) {
+	// R19.6: the temp databases answer a suffrage proof by suffrage height exactly like the permanent one:
+	// only for the asked height
+	c.Rule("R19.6", "MustPass")
+	if fn := c.Need("isaac/database.(*Center).suffrageProofInTemps"); fn != nil {
+		var found []ssa.Instruction
+		for _, r := range Returns(fn) {
+			if len(r.Results) == 4 && c.D(RetVal(r, 2)) == "true" {
+				found = append(found, r)
+			}
+		}
+		c.MP(fn, "a temp's proof is answered only if its suffrage height is the asked one", found, 1,
+			GCmp("db.activeTemps()[ι].SuffrageHeight()", "==", "suffrageHeight"))
+	}
+	// R19.7: a read works on one snapshot of the temp list: after activeTemps() it does not look the list up
+	// again through a second lock (a merge in between makes the second answer disagree with the snapshot)
+	c.Rule("R19.7", "Ordering")
+	if fn := c.Need("isaac/database.(*Center).SuffrageProofByBlockHeight"); fn != nil {
+		snap := c.CallsD(fn, "db.activeTemps()")
+		again := c.CallsD(fn, "db.findTemp(*)")
+		var second []string
+		for _, a := range again {
+			if allOK(c.MustPass(fn, nil, []ssa.Instruction{a}, GCalled("db.activeTemps()"))) && len(snap) > 0 {
+				second = append(second, c.Pos(a.Pos()))
+			}
+		}
+		c.Report(fn, "the by-block-height suffrage proof is looked up in one snapshot of the temp list", fn.Pos(), len(second) == 0,
+			"after activeTemps() the temp of the height is looked up again with findTemp() at "+strings.Join(second, ", ")+": a merge in between makes it nil and the read falls back to an older block's proof")
+	}
+	stateCacheOwnershipRule(c, "R19.8")
 	c.Rule("R19.j", "AsyncCapture")
 	c.AsyncCaptures(c.Need("isaac/database.(*Center).dig"), "*.NewJob", 1)
 	// R19.1 --------------------------------------------------------------------------------------
@@ -349,5 +378,26 @@ func keyBuilderRules(c *Ctx) {
 	sort.Strings(gs)
 	for _, g := range gs {
 		c.Report(nil, "prefix constant "+g+" belongs to one key builder", 0, len(prefixOf[g]) == 1, strings.Join(prefixOf[g], ", "))
+	}
+}
+
+// stateCacheOwnershipRule (shared by C19 and C20): see the comment inside.
+func stateCacheOwnershipRule(c *Ctx, rule string) {
+	// R19.8: a state cache belongs to one block: the cache handed to a block writer is not shared with the
+	// writers of other heights (setState overwrites without comparing heights, and reads answer from it first)
+	c.Rule(rule, "Ownership")
+	if fn := c.Need("launch.purgeStateCacheFunc"); fn != nil {
+		shared := false
+		for _, f := range WithClosures(fn) {
+			if f == fn {
+				continue
+			}
+			// the closure that hands out caches reuses a cache created once (sync.Once / captured variable)
+			if len(c.CallsD(f, "*.Do(*)")) > 0 {
+				shared = true
+			}
+		}
+		c.Report(fn, "every block writer of an import range gets a state cache of its own", fn.Pos(), !shared,
+			"one LFU cache is created once and handed (wrapped) to every block writer of the range: the last writer of a key wins whatever its height, and mergeTempCaches plants it in the permanent cache")
 	}
 }
